@@ -87,6 +87,12 @@ def scenario_strategy() -> Any:
             for attempt in (1, 2, 3, 4):
                 out[f"{ph}:{attempt}"] = {"copies": [{"lose": what in ("far", "both"), "d": 0.0}], "echo": what == "far"}
             return out
+        if mode == "late-echo":
+            # nothing is lost; the sender hears the echo of its own frame LATER than the far end hears the frame (a slow gateway / USB
+            # stack), so the far end's answer can overtake the echo: offer's echo after the accept, accept's echo after the confirm
+            for ph in draw(st.lists(st.sampled_from(("offer", "accept", "confirm")), min_size=1, max_size=3, unique=True)):
+                out[f"{ph}:1"] = {"copies": [{"lose": False, "d": 0.0}], "echo": True, "echo_d": draw(st.sampled_from((0.05, 0.12, 0.3)))}
+            return out
         if mode == "resent":
             # the accept needs the sender's own re-transmission: its first 1-2 transmissions vanish (no echo, nothing delivered), the next
             # one gets through; and the confirm reaches the respondent late, yet inside its stated 3 s wait
@@ -116,9 +122,9 @@ def scenario_strategy() -> Any:
     def scenario(draw: Any) -> dict:
         fi = draw(st.integers(0, len(FLOWS) - 1))
         flow = FLOWS[fi]
-        mode = draw(st.sampled_from(("clean", "dups", "dups", "delays", "delays", "faults", "faults", "faults", "dead", "resent")))
+        mode = draw(st.sampled_from(("clean", "dups", "dups", "delays", "delays", "faults", "faults", "faults", "dead", "resent", "late-echo")))
         third = []
-        for _ in range(draw(st.integers(0, 3)) if mode not in ("clean", "delays", "dead", "resent") else 0):
+        for _ in range(draw(st.integers(0, 3)) if mode not in ("clean", "delays", "dead", "resent", "late-echo") else 0):
             third.append({"t": draw(st.sampled_from((0.05, 0.3, 0.6, 1.0, 2.0, 3.05, 4.0, 6.0))), "kind": draw(st.sampled_from(("offer", "orcon-offer", "accept", "confirm", "addenda")))})
         return {"flow": fi, "mode": mode, "fates": draw(fates(mode)), "third": third, "after_offer_only": True,
                 "start": {"resp": draw(st.sampled_from((0.0, 0.0, 0.5, 1.0, 4.9))), "supp": draw(st.sampled_from((0.0, 0.1, 1.0, 4.9, 5.2)))},
@@ -156,7 +162,10 @@ def _make_ether(loop: Any, case: dict) -> Any:
             for p in self.ports:
                 if p is origin:
                     if fate is None or fate.get("echo", True):
-                        p.receive(frame, rssi="000")
+                        if fate and fate.get("echo_d"):
+                            self.loop.call_later(fate["echo_d"], p.receive, frame, "000")
+                        else:
+                            p.receive(frame, rssi="000")
                     continue
                 copies = fate["copies"] if fate else [{"lose": False, "d": 0.0}]
                 for c in copies:
@@ -450,6 +459,13 @@ def judge(case: dict, obs: dict) -> list[tuple[dict, str]]:
                     on_air = [e["frame"] for e in att["log"] if e["phase"] == ph and e["frame"][7:16] == src and e["from"] != "third"]
                     if fr.replace(HGI, src) not in on_air and fr not in on_air:
                         bad = True
+                        nxt = {"offer": "accept", "accept": "confirm", "confirm": "addenda"}.get(ph)
+                        peer = r_id if src == s_id else s_id
+                        if nxt and any(e["frame"] == fr and e["phase"] == nxt and e["frame"][7:16] == peer and e["from"] != "third" for e in att["log"]):
+                            # the slot of the frame this end SENT holds the peer's ANSWER to it (the answer overtook the echo of the sent frame)
+                            out.append(({"clause": "answer-reported-in-place-of-sent-frame", "role": role, "phase": ph},
+                                        f"{flow['name']}: {role}'s {ph} is {fr!r}, which is the peer's {nxt}; {src} put {on_air[:1]} on the ether"))
+                            break
                         foreign = any(e["frame"] == fr and e["from"] == "third" for e in att["log"])
                         out.append(({"clause": "foreign-packet-in-tuple" if foreign else "tuple-not-on-ether", "role": role, "phase": ph, "attempt": which},
                                     f"{flow['name']}: {role}'s {ph} is {fr!r}" + (" - a third party's frame" if foreign else "") + f"; {src} put {on_air[:2]} on the ether"))
